@@ -40,6 +40,17 @@ CHECKS = {
              "whole tables.",
         tech=TECH % ("", "oracle = table-of-records reference model"),
     ),
+    "C08": dict(
+        profile="vgroup", cat="exploration", ref="DESIGN.md section 4 C08",
+        text="Seeded search over Vgroup histories: create, rename/reclass (lengths around and beyond 64, shrink by "
+             "one byte), add by tag/ref with duplicates, insert Vdatas and Vgroups by handle, delete members and "
+             "objects, several handles on one Vgroup, 1..2 clients, member counts past 64 and 128, restarts. Oracle: "
+             "graph model checked through every observer (Vntagrefs/Vgettagrefs with small/exact/large arrays, "
+             "Vgettagref, Vinqtagref, Vnrefs, Visvg/Visvs, names, Vgetid, Vlone/VSlone, Vfind/VSfind/Vfindclass, "
+             "Vgetvgroups/VSgetvdatas) through open handles and after reopen. 10 000 / 200 000 histories.",
+        note="Trusts the graph model; Vdelete/VSdelete only on detached objects.",
+        tech=TECH % ("", "oracle = graph reference model"),
+    ),
     "C12": dict(
         profile="ddmap", cat="exploration", ref="DESIGN.md section 4 C12",
         text="Seeded search over create/delete/duplicate/reuse/search/count/new-ref histories (descriptor-block sizes "
